@@ -13,6 +13,7 @@ void sim_op_begin(int tag, int fk, int fm);  // per-op allocation counter := 0, 
 int  sim_op_end();                           // disarm; returns #allocations made inside SUT calls of this op
 int  sim_op_allocs();                        // allocations so far in this op
 int  sim_fault_fired();                      // #allocations failed in this op
+void sim_fault_suspend(bool on);             // thread-local: SUT calls made for harness bookkeeping are neither counted nor failed
 void sim_in_sut(bool on);                    // thread-local: allocations/frees are the SUT's
 bool sim_is_in_sut();
 size_t sim_ledger_live(std::string *detail = nullptr);  // live SUT-allocated blocks
